@@ -425,8 +425,16 @@ def coqchk_recheck(run):
     into the evidence; anything but axioms makes the run fail (no failing input: the development itself is unsound)"""
     cmd = "timeout 2400 coqchk -o -silent -Q theories LN -Q generated LNGen LN.Properties_%s" % run.pid
     t0 = time.time()
+    # coqchk takes 20-40 minutes: it runs on a private snapshot of the compiled files (taken under the lock, which is
+    # released at once) so that it neither blocks nor is disturbed by the other checks' `make`
+    snap = os.path.join(WORK, "coqchk-%s-%d" % (run.pid, os.getpid()))
     with Lock("coq"):
-        rc, out = sh(cmd, cwd=COQ, timeout=2500)
+        sh("rm -rf %s && mkdir -p %s/theories %s/generated && cp -p theories/*.vo %s/theories/ && cp -p generated/*.vo %s/generated/"
+           % ((shlex.quote(snap),) * 5), cwd=COQ, timeout=600)
+    try:
+        rc, out = sh(cmd, cwd=snap, timeout=2500)
+    finally:
+        sh("rm -rf %s" % shlex.quote(snap))
     summ = out[out.find("CONTEXT SUMMARY"):] if "CONTEXT SUMMARY" in out else out[-1500:]
     sect = {}
     cur = None
